@@ -19,10 +19,21 @@ How the English is rendered:
 * output: `write_spec` gives the whole file content (per histogram the header and per bin the row) for
   every list of requested columns (any subset, order, repetition) and one label dictionary or one per
   histogram; `valueOf` is the by-name meaning of a column.
+* "the values that belong to them" on a long-lived object: a *session* (`Core/HistSession.lean`) interleaves
+  the 14 mutating calls with any number of `write_to_file` calls and accessor calls (`bin_centers`, `bin_width`,
+  `bin_bounds_left/right`, `bin_boundaries`, `histogram`, `histogram_raw_counts`, `standard_error`,
+  `number_of_histograms`).  `outputs_depend_on_operations_only`: every observation of a session is the call
+  made in the state reached by the mutating calls before it — nothing handed out earlier matters;
+  `write_after_history`: the file written at any point holds the by-name values of the state *at that point*
+  (centre / lower / upper edge of the CURRENT edges, also after `remove_bin`/`add_bin` pairs that restore the
+  bin count); `geometry_after_history` the same for the accessors; `rebin_same_count` says what such a pair
+  does to the edges.  The real object is tied to this by the correspondence run, which drives it through the
+  same sessions and touches it with nothing but the calls of the session.
 -/
 import SparkxVerif.Lemmas.HistShape
 import SparkxVerif.Lemmas.HistAverage
 import SparkxVerif.Lemmas.HistWrite
+import SparkxVerif.Lemmas.HistSession
 import Mathlib.Algebra.Order.Field.Rat
 
 set_option linter.unusedSectionVars false
@@ -143,6 +154,91 @@ theorem average_spec (sqrt : K → K) (s : State K) (hs : Shape s) :
     simp only [wstd]
     rw [wmean_ones _ _ (hcol j), wmean_ones _ _ (by simp [hcol j])]
 
+
+/-! ### outputs on one long-lived object: sessions -/
+
+/-- **C10, outputs never depend on earlier outputs.** In any session on a new histogram — mutating calls
+interleaved with any number of `write_to_file` / accessor calls — the state a call leaves and what it hands
+back (file content, accessor value, raised or not) are those of the same call made right after the mutating
+calls that precede it, with every earlier output left out. -/
+theorem outputs_depend_on_operations_only (sqrt : K → K) (edges : List K) (pre : List (Call K)) (c : Call K)
+    (post : List (Call K)) :
+    (trace sqrt (init edges) (pre ++ c :: post))[pre.length]? =
+      some (call sqrt (run sqrt (init edges) (opsOf pre)) c) :=
+  trace_getElem? sqrt (init edges) pre c post
+
+/-- a session ends in the state its mutating calls alone lead to -/
+theorem session_final_state (sqrt : K → K) (edges : List K) (pre : List (Call K)) (c : Call K) :
+    (trace sqrt (init edges) (pre ++ [c])).getLast?.map (·.1) =
+      some (run sqrt (init edges) (opsOf (pre ++ [c]))) :=
+  trace_last_state sqrt (init edges) pre c
+
+/-- **C10, output after any history.** Whatever was called before on the object (operations, earlier writes,
+accessor calls — `pre`), a `write_to_file` with known column names and admissible labels leaves the state
+alone and writes, per histogram `h` and bin `i` of the state `s` reached by the operations of `pre`, the
+values `valueOf s h i c`: by `value_of_columns` the centre `(eᵢ + eᵢ₊₁)/2`, lower edge `eᵢ` and upper edge
+`eᵢ₊₁` of the CURRENT edges `s.edges`, and the current content / errors. -/
+theorem write_after_history (sqrt : K → K) (edges : List K) (hne : edges ≠ []) (pre post : List (Call K))
+    (cols : List String) (hcols : ∀ c ∈ cols, c ∈ allColumns) (labels : Labels)
+    (hl : LabelsOK (run sqrt (init edges) (opsOf pre)) cols labels) :
+    let s := run sqrt (init edges) (opsOf pre)
+    (trace sqrt (init edges) (pre ++ .write (some cols) labels :: post))[pre.length]? =
+      some (s, .file (.ok ((List.range s.nHist).map (fun h =>
+        (cols.map (labelOf labels h), (List.range s.nBins).map (fun i => cols.map (valueOf s h i))))))) := by
+  intro s
+  rw [outputs_depend_on_operations_only]
+  show some (s, Out.file (write s (some cols) labels)) = _
+  rw [write_some_ok (run_shape sqrt (opsOf pre) (init_shape edges hne)) cols hcols labels hl]
+
+/-- **C10, accessors after any history.** At any point of any session the accessors return the arrays of
+the state reached by the operations so far; `bin_centers`, `bin_width`, `bin_bounds_left`, `bin_bounds_right`
+have one entry per CURRENT bin, computed from the CURRENT edges. -/
+theorem geometry_after_history (sqrt : K → K) (edges : List K) (hne : edges ≠ []) (pre post : List (Call K)) :
+    let s := run sqrt (init edges) (opsOf pre)
+    (∀ g, (trace sqrt (init edges) (pre ++ .get g :: post))[pre.length]? = some (s, getter s g)) ∧
+    getter s .centers = .vec (centers s.edges) ∧ getter s .widths = .vec (widths s.edges) ∧
+    getter s .left = .vec (boundsLeft s.edges) ∧ getter s .right = .vec (boundsRight s.edges) ∧
+    getter s .boundaries = .vec s.edges ∧ getter s .histogram = .mat s.hist ∧
+    getter s .stdError = .mat s.err ∧ getter s .rawCounts = .mat s.raw ∧ getter s .nHist = .num s.nHist ∧
+    (centers s.edges).length = s.nBins ∧ (widths s.edges).length = s.nBins ∧
+    (boundsLeft s.edges).length = s.nBins ∧ (boundsRight s.edges).length = s.nBins ∧
+    ∀ i, i < s.nBins →
+      (centers s.edges)[i]? = some ((s.edges.getD i 0 + s.edges.getD (i + 1) 0) / 2) ∧
+      (widths s.edges)[i]? = some (s.edges.getD (i + 1) 0 - s.edges.getD i 0) ∧
+      (boundsLeft s.edges)[i]? = some (s.edges.getD i 0) ∧
+      (boundsRight s.edges)[i]? = some (s.edges.getD (i + 1) 0) := by
+  intro s
+  refine ⟨fun g => ?_, rfl, rfl, rfl, rfl, rfl, rfl, rfl, rfl, rfl,
+    geometry_of_shape (run_shape sqrt (opsOf pre) (init_shape edges hne))⟩
+  rw [outputs_depend_on_operations_only]
+  rfl
+
+/-- **C10, re-binning that restores the bin count.** `remove_bin(i)` followed by `add_bin(j, e)` (both with
+arguments passing the methods' validation) leaves the number of bins and of histograms as they were, keeps
+the shape invariant, and the edges are the old ones with entry `i` erased and `e` inserted at `j` — so by
+`write_after_history` / `geometry_after_history` every later output shows the centres, widths and bounds
+of these new edges. -/
+theorem rebin_same_count (sqrt : K → K) (s : State K) (hs : Shape s) (i j : Int) (e : K)
+    (h1 : Admissible s (.removeBin i)) (h2 : Admissible (step sqrt s (.removeBin i)).1 (.addBin j e)) :
+    let s' := run sqrt s [.removeBin i, .addBin j e]
+    Shape s' ∧ s'.nBins = s.nBins ∧ s'.nHist = s.nHist ∧
+    s'.edges = (s.edges.eraseIdx i.toNat).insertIdx j.toNat e := by
+  intro s'
+  have o1 : (removeBin s i).2 = none := step_ok sqrt hs (.removeBin i) h1
+  have hs1 : Shape (removeBin s i).1 := removeBin_shape hs i
+  have o2 : (addBin (removeBin s i).1 j e).2 = none := step_ok sqrt hs1 (.addBin j e) h2
+  obtain ⟨e1, n1, k1⟩ := removeBin_of_ok s i o1
+  obtain ⟨e2, n2, k2⟩ := addBin_of_ok (removeBin s i).1 j e o2
+  have hi : i < (s.nBins : Int) := h1.2
+  have hi0 : 0 ≤ i := h1.1
+  refine ⟨run_shape sqrt _ hs, ?_, ?_, ?_⟩
+  · show (addBin (removeBin s i).1 j e).1.nBins = s.nBins
+    rw [n2, n1]; omega
+  · show (addBin (removeBin s i).1 j e).1.nHist = s.nHist
+    rw [k2, k1]
+  · show (addBin (removeBin s i).1 j e).1.edges = _
+    rw [e2, e1]
+
 end field
 
 /-! ### Non-vacuity: concrete histories over ℚ (kernel evaluation of the executable model) -/
@@ -173,5 +269,41 @@ example :
     (step (fun x => x) s (.averageW [1, 3])).1.err = [[3/4]] ∧
     wmean [1, 3] (col s.hist 0) = 5/2 := by
   decide +kernel
+
+/-- write, re-bin with the bin count unchanged (drop the edge at 1, split the first bin at 1/2), look at the
+centres, write again: the second file and the accessor show the centres 1/4, 5/4, … of the NEW edges, the
+first file the old ones; the session's final state is the one of the three operations alone. -/
+example :
+    let lab : Labels := [[("bin_low", "lo"), ("bin_high", "hi"), ("bin_center", "c"), ("distribution", "d")]]
+    let cols := ["bin_low", "bin_high", "bin_center", "distribution"]
+    let calls : List (Call ℚ) := [.op (.fillList [some (1/2), some (3/2), some (3/2), some (5/2), some (7/2)] .none),
+      .write (some cols) lab, .get .centers, .op (.removeBin 1), .op (.addBin 1 (1/2)), .get .centers,
+      .write (some cols) lab]
+    let t := trace (fun x => x) (init [0, 1, 2, 3, 4]) calls
+    t.map (fun p => p.1.edges) = [[0, 1, 2, 3, 4], [0, 1, 2, 3, 4], [0, 1, 2, 3, 4], [0, 2, 3, 4],
+      [0, 1/2, 2, 3, 4], [0, 1/2, 2, 3, 4], [0, 1/2, 2, 3, 4]] ∧
+    t[1]?.bind (·.2.fileOk?) =
+      some [(["lo", "hi", "c", "d"], [[0, 1, 1/2, 1], [1, 2, 3/2, 2], [2, 3, 5/2, 1], [3, 4, 7/2, 1]])] ∧
+    t[5]?.bind (·.2.vec?) = some [1/4, 5/4, 5/2, 7/2] ∧
+    t[6]?.bind (·.2.fileOk?) =
+      some [(["lo", "hi", "c", "d"], [[0, 1/2, 1/4, 1], [1/2, 2, 5/4, 0], [2, 3, 5/2, 1], [3, 4, 7/2, 1]])] := by
+  decide +kernel
+
+/-- the hypotheses of `rebin_same_count` are satisfiable -/
+example : Admissible (init ([0, 1, 2, 3, 4] : List ℚ)) (.removeBin 1) ∧
+    Admissible (step (fun x => x) (init ([0, 1, 2, 3, 4] : List ℚ)) (.removeBin 1)).1 (.addBin 1 (1/2)) := by
+  refine ⟨⟨by decide, by decide⟩, by decide, by decide, ?_, ?_⟩
+  · intro _ x hx
+    have : x = 0 := by
+      have h : (step (fun x => x) (init ([0, 1, 2, 3, 4] : List ℚ)) (.removeBin 1)).1.edges = [0, 2, 3, 4] := by
+        decide +kernel
+      rw [h] at hx; simpa using hx.symm
+    rw [this]; norm_num
+  · intro x hx
+    have : x = 2 := by
+      have h : (step (fun x => x) (init ([0, 1, 2, 3, 4] : List ℚ)) (.removeBin 1)).1.edges = [0, 2, 3, 4] := by
+        decide +kernel
+      rw [h] at hx; simpa using hx.symm
+    rw [this]; norm_num
 
 end SparkxVerif.C10
